@@ -58,7 +58,7 @@ def emit_table(L, name, ty, items, render, doc=None):
     if doc: L.append('/-- %s -/' % doc)
     for i, c in enumerate(ch):
         L.append('def %s_%d : List %s := [%s]' % (name, i, ty, ', '.join(render(x) for x in c)))
-    L.append('def %s : List %s := %s' % (name, ty, ' ++ '.join('%s_%d' % (name, i) for i in range(len(ch)))))
+    L.append('def %s : List %s := List.flatten [%s]' % (name, ty, ', '.join('%s_%d' % (name, i) for i in range(len(ch)))))
     L.append('')
 
 
